@@ -1738,9 +1738,10 @@ func (schema *Schema) visitJSONString(settings *schemaValidationSettings, value 
 					return err
 				}
 				me = append(me, err)
+				cp = nil
 			}
 		}
-		if !cp.MatchString(value) {
+		if cp != nil && !cp.MatchString(value) {
 			err := &SchemaError{
 				Value:                 value,
 				Schema:                schema,
